@@ -317,3 +317,7 @@ TEXT["C03"].update(
 TEXT["C07"].update(
     level=TEXT["C07"]["level"] + " TcpNameserver::read_reply (Verus): conservation of the upstream TCP stream -- at the function's only await point and at its exits, the octets collected in the connection state followed by those still on the socket are exactly what was unread on entry minus the one whole frame handed out, whatever the segmentation; this is the state discipline that makes dropping the future (select! in run) harmless. The cancellation itself is not modelled.",
     note=TEXT["C07"]["note"] + " Defect D07b (a reply split across TCP segments was lost when another query arrived in between: read_exact is not cancel safe) was found by reading the code after a seeding agent pointed at it, demonstrated with a scripted upstream and fixed (fb2392c).")
+
+TEXT["C08"].update(
+    engine="verus+kani+bounded",
+    level=TEXT["C08"]["level"] + " Which address the DNS ACL judges: emission-point precondition on the ACL layer (the peer of the datagram / accepted connection) in the R9 slices of run_udp / run_tcp (Verus); bounded, end to end over real loopback sockets (engine B): 3 ACL tables x TCP clients from 127.0.0.1/.2/.3 -- REFUSED iff the first rule matching the CLIENT's address does not grant dns-recursion.")
